@@ -89,6 +89,12 @@ func (e *DocumentError) SetIncorrectUserType(s string) {
 	e.incorrectUserType = s
 }
 
+// HasFile tells whether the error knows the file it lies in. The name of the
+// file says nothing about that: a file may have an empty name.
+func (e DocumentError) HasFile() bool {
+	return e.file != nil
+}
+
 func (e *DocumentError) SetFile(file *fs.File) {
 	e.file = file
 }
